@@ -3110,8 +3110,12 @@ def update_working_tree(
 
             full_path = _tree_to_fs_path(repo_path, path, tree_encoding)
             try:
+                # If a leading directory has been replaced by a symlink the
+                # tracked file is already gone; following the link would
+                # remove something outside the work tree instead.
+                verify_leading_dirs(path, [], repo_path)
                 delete_stat: os.stat_result | None = os.lstat(full_path)
-            except FileNotFoundError:
+            except (FileNotFoundError, InvalidPathError):
                 delete_stat = None
             except OSError as e:
                 raise OSError(
